@@ -73,7 +73,11 @@ class VC:
             lines.append(f"(assert (= PI {_num(fr)}))")
         else:
             lines.append("(assert (and (> PI 3.14) (< PI 3.15)))")
-        for n, (lo, hi) in self.bounds.items():
+        allb = dict(getattr(self.ctx, "var_bounds", {}))
+        allb.update(self.bounds)
+        for a in getattr(self.ctx, "extra_smt", []):
+            lines.append(f"(assert {a})")
+        for n, (lo, hi) in allb.items():
             if lo is not None:
                 lines.append(f"(assert (>= {n} {_num(lo)}))")
             if hi is not None:
@@ -104,6 +108,9 @@ class VC:
         ctx = self.ctx
         l = l if isinstance(l, S) else ctx.lift(l)
         r = r if isinstance(r, S) else ctx.lift(r)
+        if not isinstance(l, S) or not isinstance(r, S):
+            from .symdom import Unsupported
+            raise Unsupported(f"non-finite value in claim {label}")
         keys = set(l.t) | set(r.t)
         k0 = ctx._k0()
         lnq = []
